@@ -159,7 +159,7 @@ def c08_ring(p):
     return ring_of(p)
 
 
-def body_select_variables(ctx, conv, bounds_as_coords=False):
+def body_select_variables(ctx, conv, bounds_as_coords=False, one_axis=False):
     """Keeping only some data variables leaves the geometry, and therefore every polygon, identical."""
     if conv == 'ugrid':
         ds, cv, info = c08.mesh_dataset(ctx, 'tqp', ('edge_node', 'face_edge'), 1, 'nan')
@@ -172,6 +172,14 @@ def body_select_variables(ctx, conv, bounds_as_coords=False):
             bnds = [n for n in ds.data_vars if n.endswith('_bnds')]
             ds = ds.set_coords(bnds)
             cv = type(cv)(ds)
+    if one_axis:
+        # explicit bounds on one axis only (the other axis has none and is derived)
+        gone = [n for n in ds.variables if str(n).endswith('_bnds')][-1]
+        ds = ds.drop_vars(gone)
+        for v in ds.variables.values():
+            if v.attrs.get('bounds') == gone:
+                del v.attrs['bounds']
+        cv = type(cv)(ds)
     keep = [n for k, n in enumerate(datavars) if bool(ctx.bool(f'keep{k}'))]      # forks: every subset
     ctx.note('subset', keep)
     sub = cv.select_variables(keep)
@@ -196,6 +204,8 @@ def cases(tier):
         yield c
     for conv in ('cf1d', 'cf2d', 'shoc_simple', 'shoc_standard', 'ugrid'):
         yield Case(f'select_variables:{conv}', body_select_variables, dict(conv=conv), max_paths=200)
+    for conv in ('cf1d', 'cf2d'):
+        yield Case(f'select_variables:{conv}:bounds-on-one-axis', body_select_variables, dict(conv=conv, one_axis=True), max_paths=200)
     for conv in ('cf1d', 'cf2d', 'shoc_simple'):
         yield Case(f'select_variables:{conv}:bounds-as-coordinates', body_select_variables, dict(conv=conv, bounds_as_coords=True), max_paths=200)
 
